@@ -73,10 +73,14 @@ func H_C03_unary() {
 	ek := vfParam("ek", 1)
 	nd := vfParam("nd", 1)
 	E := zzGenErr(ek, nd)
+	zero := vfParam("zero", 0) // the successful reply is the zero value (it encodes to zero bytes)
 	impl := &zzImpl{}
 	impl.unary = func(ctx context.Context, in *testproto.Msg) (*testproto.Msg, error) {
 		if E != nil {
 			return nil, E
+		}
+		if zero == 1 {
+			return &testproto.Msg{}, nil
 		}
 		return &testproto.Msg{Value: in.GetValue() + 1}, nil
 	}
@@ -86,9 +90,11 @@ func H_C03_unary() {
 	cc := NewClientConn(crw, "cli", "srv")
 	done := false
 	var err error
+	var got int32
 	go func() {
-		out := new(testproto.Msg)
+		out := &testproto.Msg{Value: 77}
 		err = cc.Invoke(context.Background(), "/"+zzSvcName+"/Unary", &testproto.Msg{Value: 1}, out)
+		got = out.GetValue()
 		done = true
 	}()
 	vfAtQuiescence(func() {
@@ -98,6 +104,11 @@ func H_C03_unary() {
 		}
 		if E == nil {
 			vfAssert(err == nil, "success-exactly-when-handler-returned-nil")
+			if zero == 1 {
+				vfAssert(err != nil || got == 0, "zero-valued-reply-delivered")
+			} else {
+				vfAssert(err != nil || got == 2, "reply-delivered")
+			}
 			vfReach("ok")
 			return
 		}
